@@ -440,3 +440,51 @@ def negative_control(ctx, family, module, cfg, recs, mutate, expect=None, tries=
         if done >= 1:
             return
     raise Machinery("negative control: no suitable record")
+
+
+def record_property(ctx, family, mc_runs, drv_args, rec_module, rec_cfg, keyfn, mutate, what, shards=None,
+                    drv_timeout=900, tlc_timeout=900, conformance_only=(), group=None, env=None):
+    """The whole pipeline for a function-shaped property:
+    mc_runs: list of (module, cfg) spec-level TLC runs (design theorems; a failure there is a spec bug).
+    drv_args: driver argv producing <out> ndjson. Then TLC judges every record with rec_module/rec_cfg.
+    conformance_only: invariant names whose failure is drift, not a verdict."""
+    if ctx.drv is None:
+        build_driver(ctx)
+    for module, cfg in mc_runs:
+        r = run_tlc(ctx, family, module, cfg, timeout=tlc_timeout)
+        tlc_must_finish(r, module)
+        if r.inv or r.props:
+            raise Machinery("specification theorem failed in %s (spec bug, not a code verdict): %s" % (module, r.inv + r.props))
+        ctx.add("states", r.distinct)
+        ctx.add("transitions", r.generated)
+    out = os.path.join(ctx.work, "records.ndjson")
+    drv(ctx, [a if a != "<out>" else out for a in drv_args], timeout=drv_timeout)
+    recs = read_ndjson(out)
+    bad, gen, dist = judge_records(ctx, family, rec_module, rec_cfg, recs, shards=shards, timeout=tlc_timeout, env=env)
+    ctx.add("states", dist)
+    ctx.add("transitions", gen)
+    ctx.add("traces_validated_against_impl", len(recs))
+    for clause, idxs in sorted(bad.items()):
+        rs = [recs[i] for i in idxs]
+        if clause in conformance_only:
+            ctx.drift.append({"clause": clause, "count": len(rs), "first": rs[:3]})
+            continue
+        groups = {}
+        for x in rs:
+            groups.setdefault(group(clause, x) if group else "", []).append(x)
+        for g, xs in sorted(groups.items()):
+            keys = sorted(set(keyfn(x) for x in xs))
+            sig = {"group": g, "records": keys[:40], "count": len(keys)} if group else {"records": keys[:40], "count": len(keys)}
+            report(ctx, clause, sig, "%d record(s) of the real code differ from %s, e.g. %s" % (len(keys), what, keys[:3]),
+                   {"records": xs[:200], "cmd": "bin/check %s --tier %s" % (ctx.id, ctx.tier)})
+    negative_control(ctx, family, rec_module, rec_cfg, recs, mutate, env=env)
+    ops = {}
+    for x in recs:
+        ops[x.get("op", "?")] = ops.get(x.get("op", "?"), 0) + 1
+    seen = set()
+    for x in recs:
+        if x.get("op") not in seen:
+            seen.add(x.get("op"))
+            ctx.sample(x)
+    ctx.cov["records_by_op"] = ops
+    return recs, bad
